@@ -1,6 +1,7 @@
 (* C16 — Built-in priors are the log-densities they are named after. *)
 From Coq Require Import ZArith QArith Reals List Bool.
-From BS Require Import Base.Arith Model.Priors Spec.Densities Proofs.PriorProofs.
+From BS Require Import Base.Arith Base.CyPrelude Model.Priors Spec.Densities Proofs.PriorProofs Gen.PriorsGen Proofs.TiePriors Proofs.TiePriorsR.
+From Coq Require Import String.
 Import ListNotations.
 Local Open Scope R_scope.
 
@@ -59,6 +60,52 @@ Example C16_example :
   (match prior_eval ArithQ 3%Q (fun _ => 1%Q) (fun _ _ => 1%Q) (PrUniform 0%Q 2%Q) 1%Q with Val _ => true | _ => false end) = true.
 Proof. vm_compute. reflexivity. Qed.
 
+(* ---- Tie to the CURRENT source: the seven prior functions regenerated from bioscrape/pid_interfaces.py on this run
+   (Gen/PriorsGen.v, tools/tr_priors.py) equal the hand model for ANY arithmetic, constant pi and Gamma / Beta functions;
+   check_prior's dispatch sends each prior type to the function of that name; and the log-density statements above hold of
+   the regenerated functions themselves. *)
+Theorem C16_source_tie :
+  forall F (A : Arith F) (pi_ : F) (G : F -> F) (B : F -> F -> F),
+  (forall lb ub x, gen_uniform_prior A lb ub x = prior_eval A pi_ G B (PrUniform lb ub) x) /\
+  (forall mu s x, gen_gaussian_prior A pi_ mu s x = prior_eval A pi_ G B (PrGaussian mu s) x) /\
+  (forall lam h2 x, gen_exponential_prior A lam h2 x = prior_eval A pi_ G B (PrExponential lam) x) /\
+  (forall a b x, gen_gamma_prior A G a b x = prior_eval A pi_ G B (PrGamma a b) x) /\
+  (forall a b x, gen_beta_prior A B a b x = prior_eval A pi_ G B (PrBeta a b) x) /\
+  (forall lb ub x, gen_log_uniform_prior A lb ub x = prior_eval A pi_ G B (PrLogUniform lb ub) x) /\
+  (forall mu s x, gen_log_gaussian_prior A pi_ mu s x = prior_eval A pi_ G B (PrLogGaussian mu s) x).
+Proof. exact @source_priors_tie. Qed.
+
+Theorem C16_source_dispatch :
+  gen_prior_dispatch = [("uniform", "uniform_prior"); ("gaussian", "gaussian_prior"); ("exponential", "exponential_prior"); ("gamma", "gamma_prior");
+                        ("log-uniform", "log_uniform_prior"); ("log-gaussian", "log_gaussian_prior"); ("beta", "beta_prior")]%string.
+Proof. exact source_dispatch. Qed.
+
+Theorem C16_source_inside :
+  forall (G : R -> R) (B : R -> R -> R),
+  (forall lb ub x, lb < ub -> lb <= x <= ub -> gen_uniform_prior ArithR lb ub x = Val (ld_uniform lb ub x)) /\
+  (forall mu s x, 0 < s -> gen_gaussian_prior ArithR PI mu s x = Val (ld_gaussian mu s x)) /\
+  (forall lam h2 x, 0 < lam -> 0 <= x -> gen_exponential_prior ArithR lam h2 x = Val (ld_exponential lam x)) /\
+  (forall a b x, 0 < b -> 0 < G a -> 0 < x -> gen_gamma_prior ArithR G a b x = Val (ld_gamma G a b x)) /\
+  (forall a b x, 0 < B a b -> 0 < x < 1 -> gen_beta_prior ArithR B a b x = Val (ld_beta B a b x)) /\
+  (forall lb ub x, 0 < lb -> lb < ub -> lb <= x <= ub -> gen_log_uniform_prior ArithR lb ub x = Val (ld_loguniform lb ub x)) /\
+  (forall mu s x, 0 < s -> 0 < x -> gen_log_gaussian_prior ArithR PI mu s x = Val (ld_loggaussian mu s x)).
+Proof. exact source_priors_inside. Qed.
+
+Theorem C16_source_outside :
+  forall (G : R -> R) (B : R -> R -> R),
+  (forall lb ub x, x < lb \/ ub < x -> gen_uniform_prior ArithR lb ub x = Reject) /\
+  (forall lam h2 x, x < 0 -> gen_exponential_prior ArithR lam h2 x = Reject) /\
+  (forall a b x, x < 0 -> gen_gamma_prior ArithR G a b x = Reject) /\
+  (forall a b x, x < 0 \/ 1 < x -> gen_beta_prior ArithR B a b x = Reject) /\
+  (forall lb ub x, 0 <= lb -> 0 <= ub -> x < lb \/ ub < x -> gen_log_uniform_prior ArithR lb ub x = Reject).
+Proof. exact source_priors_outside. Qed.
+
+Example C16_source_example :
+  (match gen_exponential_prior ArithQ 1%Q 0%Q (-1)%Q with Reject => true | _ => false end) &&
+  (match gen_beta_prior ArithQ (fun _ _ => 1%Q) 3%Q 3%Q (3#2)%Q with Reject => true | _ => false end) &&
+  (match gen_uniform_prior ArithQ 0%Q 2%Q 1%Q with Val _ => true | _ => false end) = true.
+Proof. vm_compute. reflexivity. Qed.
+
 Print Assumptions C16_uniform_inside. Print Assumptions C16_gaussian_inside.
 Print Assumptions C16_exponential_inside. Print Assumptions C16_gamma_inside.
 Print Assumptions C16_beta_inside. Print Assumptions C16_loguniform_inside.
@@ -66,3 +113,4 @@ Print Assumptions C16_loggaussian_inside. Print Assumptions C16_uniform_outside.
 Print Assumptions C16_exponential_outside. Print Assumptions C16_gamma_outside.
 Print Assumptions C16_beta_outside. Print Assumptions C16_loguniform_outside.
 Print Assumptions C16_positive_flag. Print Assumptions C16_sum. Print Assumptions C16_reject_absorbs.
+Print Assumptions C16_source_tie. Print Assumptions C16_source_dispatch. Print Assumptions C16_source_inside. Print Assumptions C16_source_outside.
